@@ -13,6 +13,8 @@ package htlcswitch
 //	"p"  packets Bob's links hand to the switch (ForwardPackets), with a
 //	     snapshot whether the outgoing HTLC is still active on a commitment
 //	"s"  messages Bob's links SEND (recorded in the sending link's goroutine)
+//	"g"  Bob's link on channel ch has SIGNED a new remote commitment (CommitDiff
+//	     persisted, downstream packets acked); the commit_sig itself follows as "s"
 //	"x"  injected faults: ["x","linkrestart",ch] Bob's link on channel ch was
 //	     stopped (both ends of the channel are stopped and restarted over the
 //	     channel state reloaded from disk = peer disconnect/reconnect);
@@ -33,6 +35,7 @@ import (
 	"encoding/hex"
 	"fmt"
 	"os"
+	"strings"
 	"sync"
 	"sync/atomic"
 	"testing"
@@ -41,6 +44,7 @@ import (
 	"github.com/btcsuite/btcd/btcec/v2"
 	"github.com/btcsuite/btcd/btcutil/v2"
 	"github.com/btcsuite/btcd/wire/v2"
+	"github.com/btcsuite/btclog/v2"
 	sphinx "github.com/lightningnetwork/lightning-onion"
 	"github.com/lightningnetwork/lnd/channeldb"
 	"github.com/lightningnetwork/lnd/chanstate"
@@ -379,9 +383,13 @@ func vC08WrapForward(r *vC08Rec, lp **channelLink, name int,
 					kind = "fail"
 				}
 				if kind == "add" {
+					var srcH, srcI uint64
+					if p.sourceRef != nil {
+						srcH, srcI = p.sourceRef.Height, uint64(p.sourceRef.Index)
+					}
 					r.add("p", name, kind, r.sc(p.incomingChanID),
 						p.incomingHTLCID, uint64(p.incomingAmount),
-						uint64(p.amount), replay)
+						uint64(p.amount), replay, srcH, srcI)
 					continue
 				}
 				if active == nil {
@@ -428,7 +436,7 @@ type vC08Net struct {
 	t       *testing.T
 	rec     *vC08Rec
 	n       *threeHopNetwork
-	restore func() (*clusterChannels, error)
+	restore func(one, two bool) (*clusterChannels, error)
 	opt     serverOption
 	rg      *vrng
 	nsrv    uint64
@@ -467,6 +475,14 @@ func (v *vC08Net) mkLink(server, peer *mockServer, channel *lnwallet.LightningCh
 	notifyUpdateChan := make(chan *contractcourt.ContractUpdate)
 	doneChan := make(chan struct{})
 	notifyContractUpdate := func(u *contractcourt.ContractUpdate) error {
+		// updateCommitTx reports the new remote pending commitment right
+		// after SignNextCommitment persisted the CommitDiff and
+		// ackDownStreamPackets ran, BEFORE the commit_sig is sent (which
+		// does not happen at all if the link is stopping): this is the
+		// exact point of the model's ESig.
+		if bobName != 0 && u.HtlcKey == contractcourt.RemotePendingHtlcSet {
+			v.rec.add("g", bobName, len(u.Htlcs))
+		}
 		select {
 		case notifyUpdateChan <- u:
 		case <-doneChan:
@@ -491,7 +507,17 @@ func (v *vC08Net) mkLink(server, peer *mockServer, channel *lnwallet.LightningCh
 			Peer:               &vC08Peer{Peer: peer, v: v, ch: ch, epoch: ep, bob: bobName != 0},
 			Circuits:           sw.CircuitModifier(),
 			ForwardPackets:     forwardPackets,
-			DecodeHopIterators: decoder.DecodeHopIterators,
+			DecodeHopIterators: func(id []byte, reqs []hop.DecodeHopIteratorRequest,
+				reforward bool) ([]hop.DecodeHopIteratorResponse, error) {
+
+				// which adds of forwarding package id are (re)processed
+				hs := make([]string, 0, len(reqs))
+				for _, q := range reqs {
+					hs = append(hs, hex.EncodeToString(q.RHash))
+				}
+				v.rec.add("d", server.name, ch, hex.EncodeToString(id), hs, reforward)
+				return decoder.DecodeHopIterators(id, reqs, reforward)
+			},
 			ExtractErrorEncrypter: func(*btcec.PublicKey) (
 				hop.ErrorEncrypter, lnwire.FailCode) {
 
@@ -568,7 +594,7 @@ func (v *vC08Net) intersect(node string, s *mockServer) {
 
 // vC08NewNet is newThreeHopNetwork built with mkLink.
 func vC08NewNet(t *testing.T, rec *vC08Rec, rg *vrng, ch *clusterChannels,
-	restore func() (*clusterChannels, error), opt serverOption) *vC08Net {
+	restore func(one, two bool) (*clusterChannels, error), opt serverOption) *vC08Net {
 
 	v := &vC08Net{t: t, rec: rec, rg: rg, restore: restore, opt: opt,
 		tags: map[lnwire.Message]uint64{}}
@@ -643,7 +669,7 @@ func (v *vC08Net) flap(ch int) error {
 	v.epoch[ch]++
 	v.dropping[ch] = false
 	v.mu.Unlock()
-	chans, err := v.restore()
+	chans, err := v.restore(ch == 1, ch == 2)
 	if err != nil {
 		return err
 	}
@@ -678,7 +704,7 @@ func (v *vC08Net) restartBob() error {
 	if err := nb.Start(); err != nil {
 		return err
 	}
-	chans, err := v.restore()
+	chans, err := v.restore(true, true)
 	if err != nil {
 		return err
 	}
@@ -1040,11 +1066,44 @@ func vC08Batch(t *testing.T, rg *vrng, idx int) *vC08Case {
 	start := time.Now()
 	c := &vC08Case{Case: idx}
 
-	channels, restore, err := createClusterChannels(
-		t, btcutil.Amount(3000000), btcutil.Amount(2000000),
-	)
+	// createClusterChannels, keeping the per-channel-end restore functions:
+	// only the channel being restarted may be reloaded from disk (the other
+	// one is being written to by its running links).
+	_, _, scid1, scid2 := genIDs()
+	a2b, b2a, err := createTestChannel(t, alicePrivKey, bobPrivKey,
+		btcutil.Amount(3000000), btcutil.Amount(3000000), 0, 0, scid1)
 	if err != nil {
 		t.Fatalf("create channels: %v", err)
+	}
+	b2c, c2b, err := createTestChannel(t, bobPrivKey, carolPrivKey,
+		btcutil.Amount(2000000), btcutil.Amount(2000000), 0, 0, scid2)
+	if err != nil {
+		t.Fatalf("create channels: %v", err)
+	}
+	channels := &clusterChannels{aliceToBob: a2b.channel, bobToAlice: b2a.channel,
+		bobToCarol: b2c.channel, carolToBob: c2b.channel}
+	restore := func(one, two bool) (*clusterChannels, error) {
+		var (
+			r   clusterChannels
+			err error
+		)
+		if one {
+			if r.aliceToBob, err = a2b.restore(); err != nil {
+				return nil, err
+			}
+			if r.bobToAlice, err = b2a.restore(); err != nil {
+				return nil, err
+			}
+		}
+		if two {
+			if r.bobToCarol, err = b2c.restore(); err != nil {
+				return nil, err
+			}
+			if r.carolToBob, err = c2b.restore(); err != nil {
+				return nil, err
+			}
+		}
+		return &r, nil
 	}
 	rec := &vC08Rec{
 		chans: map[lnwire.ChannelID]int{},
@@ -1061,6 +1120,9 @@ func vC08Batch(t *testing.T, rg *vrng, idx int) *vC08Case {
 	rec.chans[lnwire.NewChanIDFromOutPoint(channels.bobToCarol.ChannelPoint())] = 2
 	rec.scids[channels.bobToAlice.ShortChanID()] = 1
 	rec.scids[channels.bobToCarol.ShortChanID()] = 2
+	vC08Log.mu.Lock()
+	vC08Log.rec = rec
+	vC08Log.mu.Unlock()
 	var plan []*vC08Fault
 	var delays bool
 	c.Fault, delays, plan = vC08Plan(rg.fork(500), idx)
@@ -1140,14 +1202,59 @@ func vC08Batch(t *testing.T, rg *vrng, idx int) *vC08Case {
 	return c
 }
 
+// vC08Sink receives lnd's htlcswitch log: link failures of links that are NOT
+// being stopped are recorded as "f" events of the running batch.
+type vC08Sink struct {
+	mu  sync.Mutex
+	rec *vC08Rec
+	f   *os.File
+}
+
+func (k *vC08Sink) Write(b []byte) (int, error) {
+	k.mu.Lock()
+	defer k.mu.Unlock()
+	if k.f != nil {
+		k.f.Write(b)
+	}
+	line := string(b)
+	if k.rec != nil && strings.Contains(line, "failing link") &&
+		!strings.Contains(line, "shutting down") && !strings.Contains(line, "quit signal") {
+
+		if i := strings.Index(line, "failing link"); i >= 0 {
+			line = strings.TrimSpace(line[i:])
+		}
+		k.rec.add("f", line)
+	}
+	return len(b), nil
+}
+
+var vC08Log = &vC08Sink{}
+
 func TestVerifThreeHop(t *testing.T) {
+	lvl := btclog.LevelError
+	if p := os.Getenv("VERIF_C08_LOG"); p != "" {
+		f, err := os.Create(p)
+		if err != nil {
+			t.Fatal(err)
+		}
+		defer f.Close()
+		vC08Log.f = f
+		lvl = btclog.LevelDebug
+	}
+	lg := btclog.NewSLogger(btclog.NewDefaultHandler(vC08Log))
+	lg.SetLevel(lvl)
+	UseLogger(lg)
 	out := vOpenOut()
 	defer out.close()
 	root := vNewRng(vSeed())
 	n := vCases(6, 60)
 	stuck := 0
+	only := vEnvInt("VERIF_C08_ONLY", -1)
 	for i := 0; i < n && stuck < 2; i++ {
 		i := i
+		if only >= 0 && int64(i) != only {
+			continue
+		}
 		t.Run(fmt.Sprintf("b%d", i), func(t *testing.T) {
 			c := vC08Batch(t, root.fork(uint64(i)), i)
 			if !c.Quiescent {
